@@ -7,6 +7,7 @@ import (
 	"io"
 	"net"
 	"net/http"
+	"os"
 	"strconv"
 	"strings"
 	"sync"
@@ -185,6 +186,15 @@ func (b *c27StreamBackend) serve(c net.Conn) {
 	}
 }
 
+// c27DoneWaitCap bounds how long a drain-after-backend-done client waits for the backend: the
+// backend of a body that does not fit into the socket buffers cannot finish before the client reads.
+func c27DoneWaitCap(s *c27Stream) time.Duration {
+	if s.total() > 200000 {
+		return 1500 * time.Millisecond
+	}
+	return 15 * time.Second
+}
+
 func c27SockOpts(rcvbuf, mss int) func(network, address string, c syscall.RawConn) error {
 	return func(network, address string, c syscall.RawConn) error {
 		return c.Control(func(fd uintptr) {
@@ -223,15 +233,25 @@ func c27StallCapacity(rcvbuf, mss int) int {
 		return -1
 	}
 	defer s.Close()
+	// same pacing as the "brim" family (the amount a stalled peer lets the sender queue depends on it):
+	// one block, then small pieces a millisecond apart; beyond 64 KB just fill up
 	total := 0
-	buf := make([]byte, 1000)
-	for total < 64<<20 {
+	write := func(n int) bool {
 		s.SetWriteDeadline(time.Now().Add(400 * time.Millisecond))
-		n, err := s.Write(buf)
-		total += n
-		if err != nil {
-			break
+		m, err := s.Write(make([]byte, n))
+		total += m
+		return err == nil
+	}
+	if !write(c27BrimBulk + 200) {
+		return total
+	}
+	for total < 64<<10 {
+		if !write(c27BrimPiece + 7) {
+			return total
 		}
+		time.Sleep(time.Millisecond)
+	}
+	for total < 64<<20 && write(1000) {
 	}
 	return total
 }
@@ -279,7 +299,7 @@ func c27StreamClient(addr string, c *c27Case, done <-chan struct{}) (raw []byte,
 	case "drain-after-backend-done":
 		select {
 		case <-done:
-		case <-time.After(15 * time.Second):
+		case <-time.After(c27DoneWaitCap(s)):
 		}
 		time.Sleep(time.Duration(s.StallMs) * time.Millisecond)
 		backendDoneBeforeFirstRead = isDone()
@@ -294,8 +314,12 @@ func c27StreamClient(addr string, c *c27Case, done <-chan struct{}) (raw []byte,
 			time.Sleep(time.Duration(s.StallMs) * time.Millisecond)
 		}
 	}
+	tw := time.Now()
 	if rerr == nil {
 		_, rerr = io.Copy(&buf, conn)
+	}
+	if d := time.Since(tw); d > 3*time.Second && os.Getenv("VERIF_C27_DEBUG") != "" {
+		fmt.Fprintf(os.Stderr, "DBG slow drain %v case=%s bytes=%d err=%v\n", d, s.key(), buf.Len(), rerr)
 	}
 	if rerr == io.EOF {
 		rerr = nil
@@ -305,25 +329,26 @@ func c27StreamClient(addr string, c *c27Case, done <-chan struct{}) (raw []byte,
 
 // How the families provoke a blocked write. A stalled client with MSS 536 / SO_RCVBUF 1024 lets
 // bfe hand about 29 KB to the kernel before a write blocks (measured per run for the evidence, see
-// c27StallCapacity; the case list does not depend on the measurement and covers 12..53 KB).
-//   brim      the backend sends 12 KB at once and then K pieces of 400 bytes, K = 1..100, each after a
-//             pause longer than the flush interval. bfe keeps a piece that small in its 512-byte
-//             response buffer until the next tick, so it is the tick-driven flusher (not the copy
-//             loop) that writes it to the client, and for the K at which the socket becomes full it is
-//             the flush of the LAST piece that blocks: the body then ENDS while that flush is blocked.
-//   sweep     the same idea with 3000-byte pieces, which bfe's copy loop writes through directly: here
-//             the copy loop blocks.
-//   sse-brim  Accept: text/event-stream without a cluster flush interval (tick = 1 s): K pieces of 400
-//             bytes in quick succession; the last partial buffer is written by the 1 s tick.
+// c27StallCapacity; the case list does not depend on the measurement and covers 18..46 KB).
+//
+//	brim      the backend sends 18 KB at once and then K pieces of 400 bytes, K = 1..70, each after a
+//	          pause longer than the flush interval. bfe keeps a piece that small in its 512-byte
+//	          response buffer until the next tick, so it is the tick-driven flusher (not the copy
+//	          loop) that writes it to the client, and for the K at which the socket becomes full it is
+//	          the flush of the LAST piece that blocks: the body then ENDS while that flush is blocked.
+//	sweep     the same idea with 3000-byte pieces, which bfe's copy loop writes through directly: here
+//	          the copy loop blocks.
+//	sse-brim  Accept: text/event-stream without a cluster flush interval (tick = 1 s): K pieces of 400
+//	          bytes in quick succession; the last partial buffer is written by the 1 s tick.
 const (
 	c27SweepRcvBuf = 1024
 	c27SweepMSS    = 536
 	c27SweepPiece  = 3000
 	c27SweepLo     = 14000
 	c27SweepHi     = 50000
-	c27BrimBulk    = 12000
+	c27BrimBulk    = 18000
 	c27BrimPiece   = 400
-	c27BrimMaxK    = 100
+	c27BrimMaxK    = 70
 )
 
 func c27StreamCases(r *vkit.Run) []*c27Case {
@@ -349,7 +374,7 @@ func c27StreamCases(r *vkit.Run) []*c27Case {
 						minor = 0
 					}
 					add(minor, frame, c27Stream{Family: "brim", Host: host, FlushMs: fl, Bulk: c27BrimBulk + offset, Pieces: k, Piece: c27BrimPiece,
-						PauseMs: 2*fl + 3, FinalPauseMs: 4*fl + 15, RcvBuf: c27SweepRcvBuf, MSS: c27SweepMSS,
+						PauseMs: fl + fl/2 + 3, FinalPauseMs: 4*fl + 15, RcvBuf: c27SweepRcvBuf, MSS: c27SweepMSS,
 						Client: "drain-after-backend-done", StallMs: 3*fl + 20})
 				}
 			}
@@ -375,7 +400,7 @@ func c27StreamCases(r *vkit.Run) []*c27Case {
 		g := r.Rng("stream-sse-brim")
 		for _, frame := range []string{"chunked", "close"} {
 			offset := g.Intn(c27BrimPiece)
-			for k := 20; k <= c27BrimMaxK+10; k++ {
+			for k := 30; k <= 100; k++ {
 				add(1, frame, c27Stream{Family: "sse-brim", Host: "s0", SSE: true, Bulk: offset, Pieces: k, Piece: c27BrimPiece,
 					PauseMs: 2, FinalPauseMs: 1250, RcvBuf: c27SweepRcvBuf, MSS: c27SweepMSS, Client: "drain-after-backend-done", StallMs: 30})
 			}
@@ -440,6 +465,7 @@ func c27StreamClusters(b *c27StreamBackend) []e2e.Cluster {
 		name := fmt.Sprintf("c27s%d", f)
 		cs = append(cs, e2e.Cluster{
 			Name: name, Hosts: []string{fmt.Sprintf("s%d.c27.test", f)}, MaxIdleConnsPerHost: 0, ResFlushInterval: f,
+			TimeoutConnSrv: 10000, TimeoutResponseHeader: 20000,
 			SubClusters: []e2e.SubCluster{{Name: "sub1", Weight: 100, Backends: []e2e.Backend{{Name: "sb", Addr: b.Addr, Port: b.Port, Weight: 10}}}},
 		})
 	}
@@ -451,14 +477,29 @@ func c27RunStream(r *vkit.Run, addr string, b *c27StreamBackend, cases []*c27Cas
 	if len(idx) == 0 {
 		return 0
 	}
+	t0 := time.Now()
+	defer func() { r.Extra("stream_phase_wall_s", time.Since(t0).Seconds()) }()
 	capacity := c27StallCapacity(c27SweepRcvBuf, c27SweepMSS)
 	r.Extra("stream_measured_stall_capacity_bytes_mss536_rcvbuf1024", capacity)
 	doneFirst := make([]bool, len(cases))
+	durs := make([]time.Duration, len(cases))
 	vkit.Parallel(len(idx), len(idx), func(k int) {
 		i := idx[k]
 		c := cases[i]
+		// spread the connection set-ups (to bfe, and from bfe to the backend) over about a second:
+		// a burst larger than the listen backlog costs SYN retransmissions and backend connect timeouts
+		time.Sleep(time.Duration(k) * 700 * time.Microsecond)
+		t1 := time.Now()
 		raws[i], eofs[i], doneFirst[i] = c27StreamClient(addr, c, b.doneCh(c.ID))
+		durs[i] = time.Since(t1)
 	})
+	slowest := idx[0]
+	for _, i := range idx {
+		if durs[i] > durs[slowest] {
+			slowest = i
+		}
+	}
+	r.Extra("stream_slowest_case", fmt.Sprintf("%.1fs %s", durs[slowest].Seconds(), cases[slowest].Stream.key()))
 	for _, i := range idx {
 		c := cases[i]
 		s := c.Stream
